@@ -86,7 +86,7 @@ def _key(k):
 
 Q3 = "'" * 3
 # strings of several lines, some of which look like comments, headers or keys
-_MULTILINE = ["#!/bin/sh\necho started\n", "# Welcome\nto the *server*\n  # indented heading\nbye", "first\n[fake.header]\nkey = 1\n",
+_MULTILINE = ["first\n   \nlast", "  two\n\t\n  spaces\n ", "    Welcome\n      to the server\n    bye\n", "#!/bin/sh\necho started\n", "# Welcome\nto the *server*\n  # indented heading\nbye", "first\n[fake.header]\nkey = 1\n",
               "a\n\nb", "\nstarts with a newline", "ends with a quote\"\n", "tab\there\n#c", Q3 + "\nx", "ünï\n日本\n"]
 
 
@@ -305,6 +305,13 @@ def gen_case(rng, ctx):
         else:
             ddoc = gen_doc(rng, rng.choice([1, 2, 2, 3]), one_line=first_run)
             dtext = emit(rng, ddoc, dfeats)
+            if rng.random() < 0.07:
+                # the defaults as an application writes them: a triple-quoted Python string inside a function, every line
+                # carrying the same indentation - the lines INSIDE a multi-line TOML string included (there it is part of
+                # the value; the reference is computed from this very text)
+                pad = rng.choice(["    ", "  ", "\t", "        "])
+                dtext = "".join(pad + line for line in dtext.splitlines(True))
+                dfeats.add("whole-document-indented")
         utext = None
         if not first_run:
             udoc = derive_user(rng, ddoc, 3) if rng.random() < 0.85 else gen_doc(rng, 2, False)
